@@ -43,12 +43,12 @@ fn block_on_count<F: Future>(fut: F) -> (F::Output, usize) {
 fn do_await(i: usize) -> String {
     let b0 = BODY[i].load(SeqCst); let e0 = EVAL[i].load(SeqCst);
     let (val, polls) = match i {
-        0 => { let (v, p) = block_on_count(a0(5)); ((if v == 105 { "o".to_string() } else if v >= 90000 { "x".to_string() } else if v >= 80000 { format!("g{}", v - 80000) } else if v >= 70000 { format!("f{}", v - 70000) } else { "?".into() }), p) }
+        0 => { let (v, p) = block_on_count(a0(5)); ((if v == 105 { "o".to_string() } else if v >= 90000 { "x".to_string() } else if v >= 80000 { format!("g{}", v - 80000) } else if v >= 70000 { format!("f{}", v - 70000) } else if v >= 60000 { "s".to_string() } else { "?".into() }), p) }
         1 => { let (v, p) = block_on_count(a1("k")); ((if v == "orig:k" { "o".to_string() } else if let Some(r) = v.strip_prefix("fake:") { format!("f{r}") } else if let Some(r) = v.strip_prefix("fakeB:") { format!("g{r}") } else if v.starts_with("fakeX:") { "x".to_string() } else { "?".into() }), p) }
         2 => { let (_, p) = block_on_count(a2()); ("u".to_string(), p) }
         3 => { let (v, p) = block_on_count(a3(9)); ((if v == [9u64; 17] { "o".to_string() } else if v[0] >= 90000 && v.iter().all(|x| *x == v[0]) { "x".to_string() } else if v[0] >= 80000 && v.iter().all(|x| *x == v[0]) { format!("g{}", v[0] - 80000) } else if v[0] >= 70000 && v.iter().all(|x| *x == v[0]) { format!("f{}", v[0] - 70000) } else { "?".into() }), p) }
-        4 => { let (v, p) = block_on_count(a4(5)); ((if v == 405 { "o".to_string() } else if v >= 90000 { "x".to_string() } else if v >= 80000 { format!("g{}", v - 80000) } else if v >= 70000 { format!("f{}", v - 70000) } else { "?".into() }), p) }
-        _ => { let s = S(1); let (v, p) = block_on_count(s.m0(5)); ((if v == 506 { "o".to_string() } else if v >= 90000 { "x".to_string() } else if v >= 80000 { format!("g{}", v - 80000) } else if v >= 70000 { format!("f{}", v - 70000) } else { "?".into() }), p) }
+        4 => { let (v, p) = block_on_count(a4(5)); ((if v == 405 { "o".to_string() } else if v >= 90000 { "x".to_string() } else if v >= 80000 { format!("g{}", v - 80000) } else if v >= 70000 { format!("f{}", v - 70000) } else if v >= 60000 { "s".to_string() } else { "?".into() }), p) }
+        _ => { let s = S(1); let (v, p) = block_on_count(s.m0(5)); ((if v == 506 { "o".to_string() } else if v >= 90000 { "x".to_string() } else if v >= 80000 { format!("g{}", v - 80000) } else if v >= 70000 { format!("f{}", v - 70000) } else if v >= 60000 { "s".to_string() } else { "?".into() }), p) }
     };
     format!("{i}:{val}:{polls}:{}:{}", BODY[i].load(SeqCst) - b0, EVAL[i].load(SeqCst) - e0)
 }
@@ -99,6 +99,15 @@ fn do_fake_y(inj: &mut InjectorPP, i: usize) {
     }
 }
 
+/// ONE fake (one async_return! call site, one generated poll function) shared by the two u32 siblings a0 and a4, as a helper that returns the
+/// FuncPtr would give: re-faking one sibling afterwards must leave the other one with the shared fake
+static EVALS_SHARED: AtomicUsize = AtomicUsize::new(0);
+fn shared_fake() -> FuncPtr { injectorpp::async_return!(60000 + EVALS_SHARED.fetch_add(1, SeqCst) as u32, u32) }
+fn do_fake_shared(inj: &mut InjectorPP, i: usize) {
+    if i == 0 { inj.when_called_async(injectorpp::async_func!(a0(0), u32)).will_return_async(shared_fake()) }
+    else { inj.when_called_async(injectorpp::async_func!(a4(0), u32)).will_return_async(shared_fake()) }
+}
+
 fn one(line: &str) -> String {
     let mut it = line.split_whitespace();
     let id = it.next().unwrap();
@@ -110,11 +119,11 @@ fn one(line: &str) -> String {
     for op in ops {
         let t: Vec<&str> = op.split(':').collect();
         match t[0] {
-            "F" | "G" => { if let Some(j) = inj.as_mut() {
+            "F" | "G" | "S" => { if let Some(j) = inj.as_mut() {
                     // an installation (first or repeated) only ever writes branches: a trampoline and the entry patch.  Bytes that are not a branch,
                     // flushed while the injector lives, mean the function was taken back to its original code in between (un-faked for a while)
                     crate::interpose::reset(); crate::interpose::RECORD.store(true, SeqCst);
-                    if t[0] == "F" { do_fake(j, t[1].parse().unwrap()) } else { do_fake_b(j, t[1].parse().unwrap()) }
+                    if t[0] == "F" { do_fake(j, t[1].parse().unwrap()) } else if t[0] == "G" { do_fake_b(j, t[1].parse().unwrap()) } else { do_fake_shared(j, t[1].parse().unwrap()) }
                     crate::interpose::RECORD.store(false, SeqCst);
                     let mut bad = 0;
                     for k in 0..crate::interpose::len() { let e = crate::interpose::get(k);
